@@ -28,7 +28,6 @@ const (
 	driverTick   = 100 * time.Millisecond
 	stallTicks   = 50  // consecutive silent driver ticks (nothing emitted, no reply pending) => stalled
 	watchdog     = 60 * time.Second
-	disturbLimit = 60 * time.Millisecond
 )
 
 var (
